@@ -101,7 +101,12 @@ def run(ck):
         symfile = os.path.join(v['dir'], 'syms.txt')
         H.write_syms(v, v['h_exec'], symfile)
         ex = hist.Explorer(v['h_exec'], symfile, os.path.join(ck.workdir, vname), ['sinks pipe'], L, warmup=['cfgnone', 'call execve h2f77 [h77] [] -1 2'])
+        # reference: each letter as the very first wrapped call of a fresh process (no warm-up call before it)
         fresh = {}
+        for a, r0 in zip(L, pmap(lambda a: ex.run_history([a], warm=False), list(L))):
+            c0 = r0['steps'][-1][0]
+            if c0 is not None and r0['ok']:
+                fresh[a] = emission(c0, r0['workdir'])
 
         def on_step(h, a, call, r, vname=vname, fresh=fresh):
             if call is None or not r['ok']:
@@ -110,9 +115,7 @@ def run(ck):
             em = emission(call, r['workdir'])
             outcomes.add((vname, a, em))
             bad = []
-            if not h:
-                fresh.setdefault(a, em)
-            elif a in fresh and em != fresh[a]:
+            if a in fresh and em != fresh[a]:
                 bad.append('emission_differs_from_fresh_process')
             if call['rec_calls'] != 1 or call['ret'] != -1 or call['errno'] != 2:
                 bad.append('exec_passthrough')
